@@ -7,17 +7,36 @@ def classify(case):
 
 SPEC = dict(
     prop="C23",
-    disabled="under construction",
     coq_targets=["props/C23.vo"],
     drivers=[
         dict(name="syncdir", kind="main", pkg="./zzverif/c23",
-             n=dict(quick=1200, thorough=12000), timeout=dict(quick=300, thorough=1500),
+             n=dict(quick=420, thorough=6000), timeout=dict(quick=300, thorough=1500),
              ev=dict(requires=["V.lib.Bytes", "V.models.SyncDir"], case_type="SyncDir.case",
                      mismatch="SyncDir.mismatch", monitor="SyncDir.monitor_fail")),
     ],
     classify=classify,
-    rule="",
+    rule=("real osutil.EnsureDirStateGlobs / EnsureDirState (and through them EnsureFileState, AtomicWrite, AtomicSymlink) on "
+          "temp directories. (a) ALL combinations of 9 initial nodes (absent, regular with right/wrong content/mode, symlink to an "
+          "identical file / dangling / to a directory, empty and non-empty directory in the way) x 8 desired states (absent, regular "
+          "with State() failing at call 0/1/2/3, symlink, symlink failing at the write, unsupported type) for one managed name "
+          "(quick) and for two managed names (thorough, 5184 cases) next to an unrelated file; (b) random directories over a pool "
+          "of 10 names and 10 glob patterns (1-2 globs, literal, *, ?), wrong contents/modes, symlinks, directories in the way, "
+          "non-empty directories (os.Remove fails), umask 0/022/027/077 with modes the umask clears, names that do not match or "
+          "have a path component, State() failing at the n-th call of a random entry; the visiting order of the content map is "
+          "observed through the FileState values and fed to the model; (c) filepath.Match on 160 (glob, name) pairs against the "
+          "hand model of globs. Compared: directory listing after the call (type, content, permission bits, symlink target), "
+          "changed, removed, err != nil. Non-trivial = something changed/removed or an error."),
     exhaustive=dict(quick=True, thorough=True),
-    trusted_base=[],
-    assumptions=[],
+    trusted_base=[
+        "hand-written model coq/models/SyncDir.v of osutil/syncdir.go, tied by the differential run (harness/overlay/zzverif/c23/main.go)",
+        "the kernel file system and os.* / filepath.Glob / filepath.Match are modelled (name -> node map; globs limited to literal bytes, * and ?), validated on the generated cases only",
+        "AtomicWrite/AtomicSymlink are modelled as one atomic replace that fails only when a directory is in the way; their temporary files are not modelled (a leaked one would show up in the compared listing)",
+    ],
+    assumptions=[
+        "the managed directory exists and is writable (root in the sandbox); the only os.Remove failure modelled is a non-empty directory",
+        "symlinks in the managed directory point outside it (the outside table), never at another managed name",
+        "glob patterns without character classes / escapes; content names other than `/`",
+        "osutil.EnsureTreeState (synctree.go) is NOT covered: no model, no driver",
+        "failure injection is through FileState.State() errors and directories in the way; a reader failing in mid-copy and ENOSPC are not injected",
+    ],
 )
